@@ -38,6 +38,7 @@ macro_rules! dispatch {
             "C13" => runner::$f::<props::c13::C13>($($arg),*),
             "C14" => runner::$f::<props::c14::C14>($($arg),*),
             "C19" => runner::$f::<props::c19::C19>($($arg),*),
+            "C20" => runner::$f::<props::c20::C20>($($arg),*),
             other => {
                 eprintln!("HARNESS-ERROR: unknown property {}", other);
                 std::process::exit(2)
